@@ -210,12 +210,44 @@ func c09Final(e *driver.Env) {
 			e.Failf("C09.a", "Void did not consume every element", "fork.Void par=%d: %d of %d consumed", p.Par, s.Prods[0].Sent-len(s.InCh[0]), len(in))
 			return
 		}
-		if s.Out != nil && !sameMultiset(s.Out.Values(), s.M.Out) {
+		if len(s.M.Free) > 0 {
+			// elements whose predicate failed: not predicted, but each comes
+			// out at most once in all (exactly once for Partition)
+			free := map[int]int{}
+			for _, x := range s.M.Free {
+				free[x]++
+			}
+			seen := map[int]int{}
+			strip := func(vs []int) []int {
+				var out []int
+				for _, v := range vs {
+					if free[v] > 0 {
+						seen[v]++
+						continue
+					}
+					out = append(out, v)
+				}
+				return out
+			}
+			left, right := strip(valuesOf(s.Out)), strip(valuesOf(s.Out2))
+			for x, n := range free {
+				if seen[x] > n || (stage == "Partition" && seen[x] != n) {
+					e.Failf("C09.b", "an element whose predicate failed was lost or delivered more than once",
+						"%s par=%d: element %d went in %d times and came out %d times (left %v, right %v)", p.Stage, p.Par, x, n, seen[x], valuesOf(s.Out), valuesOf(s.Out2))
+					return
+				}
+			}
+			if !sameMultiset(left, s.M.Out) || (s.Out2 != nil && !sameMultiset(right, s.M.Out2)) {
+				e.Failf("C09.b", "delivered multiset differs from what the sequential stage delivers",
+					"%s par=%d: delivered %v | %v (elements with a failing predicate left out), sequential stage delivers %v | %v", p.Stage, p.Par, left, right, s.M.Out, s.M.Out2)
+				return
+			}
+		} else if s.Out != nil && !sameMultiset(s.Out.Values(), s.M.Out) {
 			e.Failf("C09.b", "delivered multiset differs from what the sequential stage delivers",
 				"%s par=%d: delivered %v, sequential stage delivers %v", p.Stage, p.Par, s.Out.Values(), s.M.Out)
 			return
 		}
-		if s.Out2 != nil && !sameMultiset(s.Out2.Values(), s.M.Out2) {
+		if len(s.M.Free) == 0 && s.Out2 != nil && !sameMultiset(s.Out2.Values(), s.M.Out2) {
 			e.Failf("C09.b", "delivered multiset differs from what the sequential stage delivers",
 				"%s par=%d right side: delivered %v, sequential stage delivers %v", p.Stage, p.Par, s.Out2.Values(), s.M.Out2)
 			return
@@ -233,6 +265,13 @@ func c09Final(e *driver.Env) {
 		}
 	}
 	s.Closure("C09.d", "C09.d")
+}
+
+func valuesOf(st *driver.Stream[int]) []int {
+	if st == nil {
+		return nil
+	}
+	return st.Values()
 }
 
 func init() {
